@@ -26,6 +26,8 @@ TBool = _Prim("Bool")
 TBytes = _Prim("Bytes")
 TStr = _Prim("Str")
 TAny = _Prim("Any")  # python-level only, never boxed
+TSlice = _Prim("Slice")  # python slice object (python-level)
+TNone = _Prim("None")
 
 
 class TList(Ty):
